@@ -263,6 +263,7 @@ func c09Execute(w *world.World, seed int64, e c09Entry, f1, f2 *simapi.Fault) *c
 	lastSig := map[string]string{}
 	for out.Steps = 0; out.Steps < 500; out.Steps++ {
 		w.Srv.RunGC()
+		w.Srv.SweepDangling()
 		r.CalmPremise()
 		for _, n := range w.PodNames() {
 			w.Kubelet(n, "settle")
